@@ -55,127 +55,205 @@ func runConcurrentWorld(s *stats, w0 *world, rng *rand.Rand) error {
 	cur := cloneWorld(w0)
 	nextID := regionBase
 	for trial := 0; trial < 3; trial++ {
-		var u, inv *updateDesc
-		for i := 0; i < 10 && inv == nil; i++ {
-			u = genUpdate(rng, cl, cur)
-			inv = inverseOf(cl, cur, u)
+		// one update, or two of different classes (three parties: patrol, rule / settings update, store update)
+		var ups, invs []*updateDesc
+		for i := 0; i < 10 && len(ups) == 0; i++ {
+			u := genUpdate(rng, cl, cur)
+			if inv := inverseOf(cl, cur, u); inv != nil {
+				ups, invs = append(ups, u), append(invs, inv)
+			}
 		}
-		if inv == nil {
+		if len(ups) == 0 {
 			continue
 		}
-		class := u.class()
-		// the regions and the "before" view
-		views0, snap0 := storeViews(cl, cur), cloneWorld(cur)
+		if rng.Intn(3) == 0 {
+			for i := 0; i < 10 && len(ups) == 1; i++ {
+				u := genStoreUpdate(rng, cur)
+				if ups[0].class() == "store" {
+					u = genConfigUpdate(rng, cur)
+					if cur.Rules != "off" && rng.Intn(2) == 0 {
+						u = genRuleUpdate(rng, cl, cur)
+					}
+				}
+				if u.class() == ups[0].class() {
+					continue
+				}
+				if inv := inverseOf(cl, cur, u); inv != nil {
+					ups, invs = append(ups, u), append(invs, inv)
+				}
+			}
+		}
+		class := ups[0].class()
+		if len(ups) == 2 {
+			class += "+" + ups[1].class()
+			s.count("concurrent_trials_three_parties", 1)
+		}
+		quiet := newStats()
+		// the regions; view[mask]: bit i set = update i applied
 		type job struct {
-			k      *kase
-			before *caseCtx
-			res    []callResult
+			k    *kase
+			view map[int]*caseCtx
+			res  []callResult
 		}
 		var jobs []*job
 		for i := 0; i < 5; i++ {
-			specs := genRegion(rng, cur, class == "rule" && i%2 == 0)
-			k := &kase{World: snap0, Region: layoutString(specs), RegionID: nextID, Initial: cloneWorld(cur), Round: 1}
+			specs := genRegion(rng, cur, ups[0].class() == "rule" && i%2 == 0)
+			k := &kase{Region: layoutString(specs), RegionID: nextID, Initial: cloneWorld(cur), Round: 1}
 			nextID++
 			if rng.Intn(12) == 0 {
 				k.FailAlloc = []string{"direct", "controller", "both"}[rng.Intn(3)]
 			}
-			// sequential replay of the witness: the same region before and after the update
+			// sequential replay of the witness: the same region before and after the update(s)
 			d := regionDesc{ID: k.RegionID, Layout: k.Region, FailAlloc: k.FailAlloc}
-			k.History = []roundDesc{{Regions: []regionDesc{d}}, {Update: u, Regions: []regionDesc{d}}}
-			c, err := prepare(cl, views0, k)
-			if err != nil {
-				continue
+			k.History = []roundDesc{{Regions: []regionDesc{d}}}
+			for _, u := range ups {
+				k.History = append(k.History, roundDesc{Update: u, Regions: []regionDesc{d}})
 			}
-			cl.PutRegion(c.info)
-			jobs = append(jobs, &job{k: k, before: c})
+			jobs = append(jobs, &job{k: k, view: map[int]*caseCtx{}})
+		}
+		snapshotViews := func(mask int) error {
+			views, snap := storeViews(cl, cur), cloneWorld(cur)
+			for _, j := range jobs {
+				kk := *j.k
+				kk.World = snap
+				c, err := prepare(cl, views, &kk)
+				if err != nil {
+					return err
+				}
+				j.view[mask] = c
+			}
+			return nil
+		}
+		if err := snapshotViews(0); err != nil {
+			continue
+		}
+		if len(ups) == 2 { // only the second update applied
+			if err := applyUpdate(quiet, cl, cur, ups[1]); err != nil {
+				return err
+			}
+			if err := snapshotViews(2); err != nil {
+				return err
+			}
+			if err := applyUpdate(quiet, cl, cur, invs[1]); err != nil {
+				return err
+			}
+		}
+		for _, j := range jobs {
+			cl.PutRegion(j.view[0].info)
 		}
 		total := int32(len(jobs) * 2)
 		fireAt := int32(rng.Intn(int(total)))
 		var progress, done int32
-		var firstStart, lastEnd int64
-		bs := newStats()
+		starts, ends := make([]int64, len(ups)), make([]int64, len(ups))
+		uerrs := make([]error, len(ups))
+		bss := make([]*stats, len(ups))
 		var wg sync.WaitGroup
-		var uerr error
-		wg.Add(2)
+		wg.Add(1 + len(ups))
 		go func() { // the patrol goroutine
 			defer wg.Done()
 			for _, j := range jobs {
+				c := j.view[0]
 				for _, via := range []string{"direct", "controller"} {
-					j.res = append(j.res, invoke(cl, j.before.rulesOn(), j.before.info, via, j.k.FailAlloc == via || j.k.FailAlloc == "both"))
+					j.res = append(j.res, invoke(cl, c.rulesOn(), c.info, via, j.k.FailAlloc == via || j.k.FailAlloc == "both"))
 					atomic.AddInt32(&progress, 1)
 				}
 			}
 			atomic.StoreInt32(&done, 1)
 		}()
-		go func() { // the API / heartbeat goroutine
-			defer wg.Done()
-			for atomic.LoadInt32(&progress) < fireAt {
-				runtime.Gosched()
-			}
-			firstStart = hist.Tick()
-			for flips := 0; ; flips++ {
-				if uerr = applyUpdate(bs, cl, cur, u); uerr != nil {
-					break
+		for ui := range ups {
+			bss[ui] = newStats()
+			go func(ui int) { // an API / heartbeat goroutine
+				defer wg.Done()
+				for atomic.LoadInt32(&progress) < fireAt {
+					runtime.Gosched()
 				}
-				if atomic.LoadInt32(&done) != 0 || flips >= 400 {
-					break
+				starts[ui] = hist.Tick()
+				for flips := 0; ; flips++ {
+					if uerrs[ui] = applyUpdate(bss[ui], cl, cur, ups[ui]); uerrs[ui] != nil {
+						break
+					}
+					if atomic.LoadInt32(&done) != 0 || flips >= 400 {
+						break
+					}
+					if uerrs[ui] = applyUpdate(bss[ui], cl, cur, invs[ui]); uerrs[ui] != nil {
+						break
+					}
+					bss[ui].count("concurrent_update_flips", 1)
 				}
-				if uerr = applyUpdate(bs, cl, cur, inv); uerr != nil {
-					break
-				}
-				bs.count("concurrent_update_flips", 1)
-			}
-			lastEnd = hist.Tick()
-		}()
-		wg.Wait()
-		s.merge(bs)
-		if uerr != nil {
-			return uerr
+				ends[ui] = hist.Tick()
+			}(ui)
 		}
-		// the "after" view: the cluster is quiescent again
-		views1, snap1 := storeViews(cl, cur), cloneWorld(cur)
-		for _, j := range jobs {
-			ka := *j.k
-			ka.World = snap1
-			after, err := prepare(cl, views1, &ka)
-			if err != nil {
-				continue
+		wg.Wait()
+		firstStart, lastEnd := starts[0], ends[0]
+		for ui := range ups {
+			s.merge(bss[ui])
+			if uerrs[ui] != nil {
+				return uerrs[ui]
 			}
+			if starts[ui] < firstStart {
+				firstStart = starts[ui]
+			}
+			if ends[ui] > lastEnd {
+				lastEnd = ends[ui]
+			}
+		}
+		// the cluster is quiescent again, every update applied
+		all := 1<<uint(len(ups)) - 1
+		if err := snapshotViews(all); err != nil {
+			return err
+		}
+		if len(ups) == 2 { // only the first update applied
+			if err := applyUpdate(quiet, cl, cur, invs[1]); err != nil {
+				return err
+			}
+			if err := snapshotViews(1); err != nil {
+				return err
+			}
+			if err := applyUpdate(quiet, cl, cur, ups[1]); err != nil {
+				return err
+			}
+		}
+		for _, j := range jobs {
 			for i := range j.res {
 				res := &j.res[i]
 				s.count("checker_calls", 1)
 				switch {
 				case res.ret < firstStart:
 					s.count("concurrent_calls_completed_before_the_update", 1)
-					j.before.suffix = ""
-					j.before.judgeCall(s, res)
+					j.view[0].suffix = ""
+					j.view[0].judgeCall(s, res)
 				case res.call > lastEnd:
 					s.count("concurrent_calls_begun_after_the_update", 1)
-					after.suffix = ":after-" + class + "-update"
-					after.judgeCall(s, res)
+					j.view[all].suffix = ":after-" + ups[0].class() + "-update"
+					j.view[all].judgeCall(s, res)
 				default:
 					s.count("concurrent_calls_overlapping_the_update", 1)
 					s.count("concurrent_calls_overlapping_"+class+"_update", 1)
-					j.before.suffix, after.suffix = ":during-"+class+"-update", ":during-"+class+"-update"
-					t0, t1 := newStats(), newStats()
-					j.before.judgeCall(t0, res)
-					after.judgeCall(t1, res)
-					for key, f := range t0.findings {
-						if _, both := t1.findings[key]; both {
-							f.Witness["concurrent_update"] = u
-							f.Witness["view_after"] = snap1
+					// every combination of "this update seen / not seen": reported only if refuted in all of them
+					var ts []*stats
+					for mask := 0; mask <= all; mask++ {
+						j.view[mask].suffix = ":during-" + class + "-update"
+						t := newStats()
+						j.view[mask].judgeCall(t, res)
+						ts = append(ts, t)
+					}
+					for key, f := range ts[0].findings {
+						inAll := true
+						for _, t := range ts[1:] {
+							if _, ok := t.findings[key]; !ok {
+								inAll = false
+							}
+						}
+						if inAll {
+							f.Witness["concurrent_updates"] = ups
+							f.Witness["view_after"] = j.view[all].k.World
 							s.report(f)
 						} else {
-							s.count("concurrent_findings_in_one_view_only_not_reported", 1)
+							s.count("concurrent_findings_not_in_every_view_not_reported", 1)
 						}
 					}
-					for key := range t1.findings {
-						if _, both := t0.findings[key]; !both {
-							s.count("concurrent_findings_in_one_view_only_not_reported", 1)
-						}
-					}
-					t0.findings, t0.fcount = map[string]*finding{}, map[string]int64{}
-					s.merge(t0)
+					ts[0].findings, ts[0].fcount = map[string]*finding{}, map[string]int64{}
+					s.merge(ts[0])
 				}
 			}
 		}
